@@ -2,7 +2,7 @@ ID = "C11"
 LEVEL = "model_checking"
 MIRSYM = "C11"
 BOUNDS = ("all usize limits of the connection semaphore; the admission branch for try_acquire Some / None x upgrade or not x handshake ok / failed x protocol switches; the HTTP response future "
-          "for call ready / pending; the WebSocket task for upgrade ok / failed; ws::background_task from every resume point; the service builder's guard for all limits; graceful_shutdown's wait for every receive-loop result; the limit through every builder step")
+          "for call ready / pending; the WebSocket task for upgrade ok / failed; ws::background_task from every resume point; the service builder's guard for all limits; graceful_shutdown's wait for every receive-loop result; the limit through every builder step; the HTTP call is processed by the permit-holding future itself")
 EXPLANATION = ("Reduced claim. Symbolic execution of the MIR of ConnectionGuard, TowerServiceNoHttp::call and the futures it creates, and ws::background_task: the semaphore has exactly "
                "max_connections slots; a request without a permit gets 429 and nothing else; the acquired permit is put into this connection's state, which is handed to the task / future "
                "that serves the connection and is let go only after the HTTP call was answered / the WebSocket session shut down, or at once when nothing is served. Only a stopping server waits for a connection's running calls; the service builder sizes its guard from the configuration.")
